@@ -151,7 +151,13 @@ def _cmp(op, a, b):
           "eq": a == b, "ne": a != b}[op]
 
 
+COMMUTATIVE = ("maximum", "minimum", "or", "and")
+
+
 def mk_app(fname, args, attrs=()):
+  if fname in COMMUTATIVE:
+    args = sorted(args, key=lambda a: (0, hash(a)) if isinstance(a, NF)
+                  else (1, 0))
   r = simplify_app(fname, tuple(attrs), tuple(args))
   if r is not None:
     return to_nf(r)
